@@ -93,6 +93,7 @@ func c05QuietStats(t *testing.T) {
 	}
 	getProxyStats()
 	c05Pool()
+	log.SetOutput(io.Discard) // the relay logs every over-long read on the package logger
 }
 
 // c05Baseline is the goroutine count before a case. The minimum of a few samples, because the
@@ -231,7 +232,14 @@ func c05Classes(c c05Case, evs []c05Ev) (classes []string, nontriv bool) {
 		}
 		switch e.Op {
 		case "read":
-			if e.N == 0 && e.Err == "" {
+			if e.Over != 0 {
+				nontriv = true
+				if e.Err == "" {
+					set["read:reports-more-than-buffer"] = true
+				} else {
+					set["read:reports-more-than-buffer+err"] = true
+				}
+			} else if e.N == 0 && e.Err == "" {
 				set["read:zero-length"] = true
 				nontriv = true
 			} else if e.N > 0 {
@@ -248,6 +256,9 @@ func c05Classes(c c05Case, evs []c05Ev) (classes []string, nontriv bool) {
 			switch {
 			case e.Err == "":
 				set["write:short"] = true
+				if e.N == 0 && e.Len > 0 {
+					set["write:(0,nil)"] = true
+				}
 			case e.N > 0:
 				set["write:err+partial"] = true
 				set["write:"+e.Err] = true
@@ -450,7 +461,7 @@ func c05JudgeStreams(evs []c05Ev, done [2]int) (viols []c05Viol, accepted [2]int
 		// time-out, closed by the peer direction ...; the bytes that came with it may still have been
 		// written afterwards), or the last result it was handed before it started to tear down is a
 		// failed / short Write or a failed SetDeadline. A zero-length read without error is not an end.
-		lastReadFailed := len(reads) > 0 && reads[len(reads)-1].Err != ""
+		lastReadFailed := len(reads) > 0 && (reads[len(reads)-1].Err != "" || reads[len(reads)-1].Over != 0) // (a Read that reports more than the buffer holds has broken its contract)
 		if lastIO != nil && !lastReadFailed && lastIO.Err == "" && !(lastIO.Op == "write" && lastIO.N < lastIO.Len) {
 			add("ended-without-failure", "%s stopped relaying and tore the tunnel down although neither side had failed: the last result it got was %s (no error, no short write); everything after it is lost",
 				c05DirName[d], c05Describe(*lastIO))
@@ -749,6 +760,14 @@ func (f c05Fault) String() string {
 		return fmt.Sprintf("%s: %s alone after %d chunks", c05DirName[f.Dir], f.Err, f.Pos)
 	case "read-zero":
 		return fmt.Sprintf("%s: zero-length read (0, nil) before chunk %d", c05DirName[f.Dir], f.Pos)
+	case "read-over":
+		e := f.Err
+		if e == "" {
+			e = "nil"
+		}
+		return fmt.Sprintf("%s: chunk %d is a full buffer whose Read reports len+(%d) bytes (negative: MaxInt32), err %s", c05DirName[f.Dir], f.Pos, f.Accept, e)
+	case "write-stuck":
+		return fmt.Sprintf("%s: Write#%d accepts %d with nil error, every later Write returns (0, nil)", c05DirName[f.Dir], f.Pos, f.Accept)
 	case "close-slow":
 		return fmt.Sprintf("Close(%s) takes %d ms", c05ConnName[f.Dir], f.Accept)
 	case "read-data":
@@ -773,6 +792,18 @@ func c05AllFaults() []c05Fault {
 		}
 		for pos := 0; pos <= 6; pos++ {
 			fs = append(fs, c05Fault{Dir: d, Kind: "read-zero", Pos: pos})
+		}
+		for _, pos := range []int{0, 3, 5} {
+			for _, over := range []int{1, 32768, -1} {
+				for _, k := range []string{"", "eof", "reset"} {
+					fs = append(fs, c05Fault{Dir: d, Kind: "read-over", Pos: pos, Accept: over, Err: k})
+				}
+			}
+		}
+		for _, call := range []int{0, 3, 7} {
+			for _, a := range []int{0, 1, -1} {
+				fs = append(fs, c05Fault{Dir: d, Kind: "write-stuck", Pos: call, Accept: a})
+			}
 		}
 		for call := 0; call < c05BaseCalls; call++ {
 			fs = append(fs,
@@ -861,9 +892,23 @@ func c05Apply(c *c05Case, f c05Fault) {
 			r = append(r, c05Step{N: 0})
 			s.Reads = append(r, s.Reads[i:]...)
 		}
+	case "read-over":
+		s := c.script(f.Dir)
+		if i := c05ChunkIdx(s, f.Pos); i >= 0 && i < len(s.Reads) && !c05HasReadFault(s, i+1) {
+			s.Reads = append([]c05Step(nil), s.Reads...)
+			s.Reads[i].N, s.Reads[i].Over = 32768, f.Accept
+			if f.Err != "" {
+				s.Reads = s.Reads[:i+1]
+				s.Reads[i].Err = f.Err
+				s.End = f.Err
+			}
+		}
 	case "write":
 		s := c.script(1 - f.Dir)
 		s.WF = append(s.WF, c05WF{Call: f.Pos, Accept: f.Accept, Err: f.Err})
+	case "write-stuck":
+		s := c.script(1 - f.Dir)
+		s.WF = append(s.WF, c05WF{Call: f.Pos, Accept: f.Accept, Then: "zero"})
 	case "setdl-src":
 		s := c.script(f.Dir)
 		s.DF = append(s.DF, c05DF{Dir: f.Dir, Call: f.Pos, Err: f.Err})
@@ -906,9 +951,10 @@ func c05Replay(t *testing.T, rec *vh.Rec) bool {
 
 // Every single fault, at every position, under every enumeration schedule.
 func TestVerif_C05_single(t *testing.T) {
-	rec := vh.NewRec("C05", "single", "exhaustive: the two halfPipes wired as in Proxy over two scripted connections; base script of 6 chunks per direction (1 B, 700 B, 32767, 32768, 32769, 65536 / 32769, 3, 65536, 1500, 32768, 32767 = 8 Reads each with the 32 KiB buffer) x every single fault {EOF, ECONNRESET, EPIPE, timeout, EIO alone before chunk 0..6; the same five returned together with chunk 0..5; a zero-length read (0, nil) before chunk 0..6; on each of the 8 Writes: short write accepting 0 / 1 / len-1 with nil error, errors with 0 / 300 / len-1 bytes accepted; SetDeadline failing at call 0..9 on source or destination, as seen by either direction; Close failing, or taking 2 ms (lingering), on either connection} x base end {both peers silent (stall time-out), both EOF} x 6 schedules (alternating with 0-3 calls of phase shift, up runs first, down runs first); plus 144 one-directional streams in virtual time: {down, up} relays 8 chunks, the first after {0, 20 s}, then every {20 s, 100 s, 130 s (a real stall)}, ends with EOF, while the other side is {silent from the start, sends one request at t=0 and waits} x the 6 schedules - the virtual clock advances only when every direction is blocked in a Read, to the next chunk arrival or read-deadline expiry; non-trivial = an injected fault other than a plain EOF alone was hit; distinct by case")
+	rec := vh.NewRec("C05", "single", "exhaustive: the two halfPipes wired as in Proxy over two scripted connections; base script of 6 chunks per direction (1 B, 700 B, 32767, 32768, 32769, 65536 / 32769, 3, 65536, 1500, 32768, 32767 = 8 Reads each with the 32 KiB buffer) x every single fault {EOF, ECONNRESET, EPIPE, timeout, EIO alone before chunk 0..6; the same five returned together with chunk 0..5; a zero-length read (0, nil) before chunk 0..6; chunk 0 / 3 / 5 replaced by a full buffer whose Read reports len+1 / 2*len / MaxInt32 bytes with nil error, EOF or reset (a source that breaks the Read contract; the relay must not crash); Write 0 / 3 / 7 accepting 0 / 1 / len-1 bytes with nil error and every later Write returning (0, nil) (a destination that makes no progress without ever failing); on each of the 8 Writes: short write accepting 0 / 1 / len-1 with nil error, errors with 0 / 300 / len-1 bytes accepted; SetDeadline failing at call 0..9 on source or destination, as seen by either direction; Close failing, or taking 2 ms (lingering), on either connection} x base end {both peers silent (stall time-out), both EOF} x 6 schedules (alternating with 0-3 calls of phase shift, up runs first, down runs first); plus 144 one-directional streams in virtual time: {down, up} relays 8 chunks, the first after {0, 20 s}, then every {20 s, 100 s, 130 s (a real stall)}, ends with EOF, while the other side is {silent from the start, sends one request at t=0 and waits} x the 6 schedules - the virtual clock advances only when every direction is blocked in a Read, to the next chunk arrival or read-deadline expiry; non-trivial = an injected fault other than a plain EOF alone was hit; distinct by case")
 	defer rec.Flush()
 	rec.Require("read:data+eof", "read:data+reset", "read:data+timeout", "read:reset", "read:epipe", "read:timeout", "read:eof", "read:zero-length", "close:slow",
+		"read:reports-more-than-buffer", "read:reports-more-than-buffer+err", "write:(0,nil)",
 		"write:short", "write:err+partial", "write:err", "write:epipe", "write:timeout", "setdl:first", "setdl:nth", "close:err",
 		"stopped-by-close:at-read", "stopped-by-close:at-write", "stopped-by-close:at-setdl", "chunk:1B", "chunk:=32KiB", "chunk:>32KiB(split)",
 		"timeout:deadline-expired(virtual clock)", "stream:still-relaying-after-30s", "stream:still-relaying-after-2min")
@@ -1048,6 +1094,10 @@ func c05GenScript(rt *rapid.T, name string, dirs []int) c05Script {
 		} else if rapid.IntRange(0, 9).Draw(rt, name+".zero") == 0 {
 			st.N = 0 // a zero-length read without error
 		}
+		if st.N > 0 && rapid.IntRange(0, 39).Draw(rt, name+".over") == 0 {
+			st.N = 32768
+			st.Over = rapid.SampledFrom([]int{1, 2, 32768, 100000, -1}).Draw(rt, name+".overby")
+		}
 		if rapid.IntRange(0, 3).Draw(rt, name+".paused") == 0 {
 			st.PauseMs = rapid.SampledFrom([]int64{1000, 10000, 29000, 31000, 60000, 119000, 121000, 300000}).Draw(rt, name+".pause")
 		}
@@ -1060,6 +1110,9 @@ func c05GenScript(rt *rapid.T, name string, dirs []int) c05Script {
 			Accept: rapid.SampledFrom([]int{0, 0, 1, -1, -2, 100, 16384, 32767, 1 << 20}).Draw(rt, name+".wf.accept"),
 			Err:    rapid.SampledFrom(c05WriteErrs).Draw(rt, name+".wf.err"),
 		})
+		if f := &s.WF[len(s.WF)-1]; f.Err == "" && rapid.IntRange(0, 2).Draw(rt, name+".wf.stuck") == 0 {
+			f.Then = "zero"
+		}
 	}
 	if rapid.IntRange(0, 4).Draw(rt, name+".hasdf") == 0 {
 		s.DF = append(s.DF, c05DF{
@@ -1097,9 +1150,9 @@ func c05Gen(rt *rapid.T) c05Case {
 }
 
 func TestVerif_C05_random(t *testing.T) {
-	rec := vh.NewRec("C05", "random", "rapid-drawn scripts for both connections: 0-8 read steps (chunks of 1 B .. 100000 B, biased to the 32 KiB buffer boundary, or with probability ~1/11 a zero-length read without error), each step with probability 1/4 arriving only after a virtual pause of 1 s .. 5 min (around the relay's 30 s / 2 min time-outs), each chunk with probability 1/8 returned together with an error {EOF, reset, EPIPE, time-out, EIO, unexpected EOF, ETIMEDOUT, ECONNABORTED}, end {silent, EOF, reset, time-out, EPIPE, EIO}, 0-2 write faults (call 0-12, accepted count 0/1/len-1/len-2/100/16384/32767/all, nil error or reset/EPIPE/time-out/EIO/ENOBUFS), optional SetDeadline fault (either direction, call 0-10), optional Close error, optional lingering Close (1-3 ms); schedule: 1/3 real concurrency, 2/3 a drawn 0-48 step turn schedule then alternating; non-trivial = an injected fault other than a plain EOF alone was hit; distinct by case")
+	rec := vh.NewRec("C05", "random", "rapid-drawn scripts for both connections: 0-8 read steps (chunks of 1 B .. 100000 B, biased to the 32 KiB buffer boundary, or with probability ~1/11 a zero-length read without error), each step with probability 1/4 arriving only after a virtual pause of 1 s .. 5 min (around the relay's 30 s / 2 min time-outs), each chunk with probability 1/8 returned together with an error {EOF, reset, EPIPE, time-out, EIO, unexpected EOF, ETIMEDOUT, ECONNABORTED}, end {silent, EOF, reset, time-out, EPIPE, EIO}, 0-2 write faults (call 0-12, accepted count 0/1/len-1/len-2/100/16384/32767/all, nil error or reset/EPIPE/time-out/EIO/ENOBUFS; a nil-error fault with probability 1/3 followed by (0, nil) from every later Write), a chunk with probability 1/40 replaced by a full buffer whose Read reports more bytes than the buffer holds, optional SetDeadline fault (either direction, call 0-10), optional Close error, optional lingering Close (1-3 ms); schedule: 1/3 real concurrency, 2/3 a drawn 0-48 step turn schedule then alternating; non-trivial = an injected fault other than a plain EOF alone was hit; distinct by case")
 	defer rec.Flush()
-	rec.Require("read:data+eof", "read:zero-length", "write:short", "write:err+partial", "setdl:first", "setdl:nth", "close:err", "close:slow", "sched:free", "sched:controlled", "stopped-by-close:at-write",
+	rec.Require("read:data+eof", "read:zero-length", "read:reports-more-than-buffer", "write:(0,nil)", "write:short", "write:err+partial", "setdl:first", "setdl:nth", "close:err", "close:slow", "sched:free", "sched:controlled", "stopped-by-close:at-write",
 		"timeout:deadline-expired(virtual clock)", "stream:still-relaying-after-30s", "stream:still-relaying-after-2min")
 	c05QuietStats(t)
 	if c05Replay(t, rec) {
